@@ -319,6 +319,23 @@ def workload(ctx, repo):
                 if k % 997 == 0:
                     ctx.sample(case)
                 run_case(ctx, repo, case)
+    # deterministic: standard/daylight pairs with a zero or opposite-sign
+    # daylight offset, every flag combination
+    for std, alt in ((-3600, 0), (3600, 0), (-1800, 0), (1800, 0), (0, 3600),
+                     (0, -1800), (-1800, 1800), (1800, -1800), (0, 0),
+                     (45900, 49500), (-12600, -9000), (-600, 3000),
+                     (-86400, -82800), (86400, 82800), (-60, 0), (60, -60)):
+        for daylight in (0, 1):
+            for isdst in (0, 1, -1):
+                if ctx.worker != 0:
+                    continue
+                case = {"op": "zone", "std": std, "alt": alt,
+                        "daylight": daylight, "isdst": isdst, "carry": True,
+                        "p": gen.rand_tp(rng, MODE, form="hms",
+                                         year=gen.rand_year(rng, 1, 9998)),
+                        "n": rng.choice(N_POOL[:12])}
+                ctx.case = case
+                run_case(ctx, repo, case)
     if ctx.tier == "thorough":
         ctx.extra["std_offsets_enumerated"] = len(
             [s for i, s in enumerate(stds)])
